@@ -147,7 +147,7 @@ Qed.
 
 Lemma module_restart_idle k now i : IdleCb i (module_restart k cfg0 now i).
 Proof.
-  intros s H. unfold module_restart. cbn [c_stages cfg0]. change (stage_list 1) with [0]. cbn [fold_left fst snd].
+  intros s H. unfold module_restart. cbn [c_stages cfg0]. change (stage_list 1) with [0]. cbn [fold_left fst snd restart_stage].
   destruct (at_sim_start_idle k now i 0 (on_w (fun w => set_mod w i (set_active (w_mod w i) true)) s)) as [I1 I2].
   { destruct H as (a & b & c0). unfold Idle. wsimpl. rewrite N.eqb_refl. wsimpl. auto. }
   split; [exact I1|]. rewrite I2. reflexivity.
